@@ -96,6 +96,55 @@ def later_component_2x2(rng, ds):
                     lg["components"] = [dict(first), dict(second)]
 
 
+def mirror_in_one_master(rng, ds):
+    """Dedicated stratum of a listed finding: one component is mirrored (negative determinant) in
+    one non-default master only."""
+    base = ds["ufos"][0]["glyphs"]
+    cands = [g["name"] for g in base if g["components"]]
+    if not cands or len(ds["ufos"]) < 2:
+        return False
+    target = rng.choice(cands)
+    ui = rng.randrange(1, len(ds["ufos"]))
+    for g in ds["ufos"][ui]["glyphs"]:
+        if g["name"] == target:
+            t = g["components"][0]["t"]
+            g["components"][0]["t"] = [-t[0], -t[1], t[2], t[3], t[4], t[5]]
+            return True
+    return False
+
+
+def _det_sign(t):
+    d = t[0] * t[3] - t[1] * t[2]
+    return (d > 0) - (d < 0)
+
+
+def mirrored_in_some_masters(ds, name):
+    """Does `name` (or a glyph it references, at any depth) have a component whose orientation
+    (sign of the determinant) differs between the masters / layers that define it?"""
+    tables = []
+    for u in ds["ufos"]:
+        tables.append({g["name"]: g for g in u["glyphs"]})
+        for layer in (u.get("layers") or {}).values():
+            tables.append({g["name"]: g for g in layer})
+    seen, todo = set(), [name]
+    while todo:
+        n = todo.pop()
+        if n in seen:
+            continue
+        seen.add(n)
+        signs = {}
+        for tb in tables:
+            g = tb.get(n)
+            if g is None:
+                continue
+            for i, c in enumerate(g["components"]):
+                signs.setdefault(i, set()).add(_det_sign(c["t"]))
+                todo.append(c["base"])
+        if any(len(v) > 1 for v in signs.values()):
+            return True
+    return False
+
+
 def gen(rng, idx, tier):
     func = rng.choice(FUNCS)
     kinds = rng.choice([["line", "curve"], ["line", "curve", "qcurve"], ["curve"], ["line", "qcurve"]])
@@ -108,6 +157,9 @@ def gen(rng, idx, tier):
         exaggerate(rng, ds)
     if rng.random() < 0.35:
         later_component_2x2(rng, ds)
+    stratum = "default"
+    if rng.random() < 0.04 and mirror_in_one_master(rng, ds):
+        stratum = "mirrored_in_one_master"
     opts = {}
     if "TTF" in func and rng.random() < 0.35:
         opts["flattenComponents"] = True
@@ -119,7 +171,7 @@ def gen(rng, idx, tier):
         skip = [rng.choice(pool)]
     filt = rng.choice([None, None, "DecomposeTransformedComponentsFilter", "PropagateAnchorsFilter"])
     return {"func": func, "ds": ds, "opts": opts, "skip": skip, "filter": filt,
-            "lib": rng.choice(["defcon", "ufoLib2"])}
+            "stratum": stratum, "lib": rng.choice(["defcon", "ufoLib2"])}
 
 
 def sample_view(case):
@@ -219,6 +271,8 @@ def run(case):
         return {"status": "violated", "counters": counters, "violations": [
             {"mech": "unexpected_exception", "detail": {"trace": traceback.format_exc()[-2500:]}}]}
     bump("families_compiled")
+    if case.get("stratum", "default") != "default":
+        bump("mirrored_stratum_cases")
     is_tt = "glyf" in loaded[0]
     bump("ttf_runs" if is_tt else "otf_runs")
     if case["opts"].get("flattenComponents"):
@@ -299,4 +353,20 @@ def run(case):
 
 
 def classify(v, case):
+    if v["mech"] == "structure_differs_across_masters":
+        # the decomposition reverses the contours of a mirrored component (negative
+        # determinant) master by master: a component that is mirrored in some masters only
+        # yields contours of opposite direction / start point there
+        if mirrored_in_some_masters(case["ds"], v["detail"]["glyph"]):
+            return "component_mirrored_in_some_masters_only"
+    if v["mech"] == "unexpected_exception":
+        # TrueType path: the same per-master reversal makes the masters disagree in point types,
+        # which the joint cubic-to-quadratic conversion rejects
+        import re
+        tr = v["detail"].get("trace", "")
+        m = re.search(r"IncompatibleFontsError: fonts contains incompatible glyphs: (.*)", tr)
+        if m:
+            names = re.findall(r"'([^']+)'", m.group(1))
+            if names and all(mirrored_in_some_masters(case["ds"], n) for n in names):
+                return "component_mirrored_in_some_masters_only"
     return None
